@@ -246,6 +246,9 @@ def effects(e, env, on_effect, loop=()):
     if e is None:
         return
     k = e.get("k")
+    if e.get("mac") in ("unreachable", "panic", "todo", "unimplemented") and e.get("ty") == "!":
+        on_effect({"k": "Panic", "mac": e["mac"], "line": e.get("line")}, loop)
+        return
     if k in ("DropTemps", "Use", "Type"):
         return effects(e["e"], env, on_effect, loop)
     if k == "Block":
